@@ -8,9 +8,9 @@ WT=$(realpath "$1"); ID="$2"; TIER="${3:-quick}"
 ROOT=$(cd "$(dirname "$0")/.." && pwd)
 SCR="${WTCHECK_SCRATCH:-/tmp/wtc}/$(basename "$WT")"
 mkdir -p "$SCR"
-rm -rf "$SCR/harness"; cp -r "$ROOT/harness" "$SCR/harness"
+rm -rf "$SCR/harness"; cp -r "${WTCHECK_HARNESS:-$ROOT/harness}" "$SCR/harness"
 sed -i "s#\"/repo/#\"$WT/#" "$SCR/harness/vmain/Cargo.toml"
-cp "$ROOT/known_findings.json" "$SCR/"
+cp "${WTCHECK_KNOWN:-$ROOT/known_findings.json}" "$SCR/"
 mkdir -p "$SCR/evidence" "$SCR/replays"
 [ -d "$SCR/target" ] || cp -r "$ROOT/target" "$SCR/target"
 export CARGO_NET_OFFLINE=true VERIF_ROOT="$SCR" VERIF_REPO="$WT"
